@@ -697,8 +697,11 @@ class DefaultCodec(Codec):
 
             # If this is an InMemoryPartition, remember the output keys so they can be
             # referred to when merging partitions in the future
+            # (the complete index, including the entries inherited from the merge parent: a
+            # partition that only remembered its own keys would drop its parent's keys when it
+            # becomes the parent of yet another partition)
             if hasattr(obj, "_output_keys") and hasattr(obj, "_parent_data_source"):
-                obj._output_keys = output_keys
+                obj._output_keys = dict(index)
                 obj._parent_data_source = data_source
 
             # noinspection PyProtectedMember
